@@ -27,6 +27,7 @@ def specs(tier):
          gridlab.tokamak_spec("ldn", fpol="const", extract=ex),                        # orthogonal, bpsign=+1
          gridlab.tokamak_spec("cdn", fpol="linear", options={"orthogonal": False}, extract=ex),  # non-orthogonal, bpsign=-1
          gridlab.tokamak_spec("ldn", fpol="linear", options={"orthogonal": False}, extract=ex),  # non-orthogonal, bpsign=+1
+         gridlab.tokamak_spec("ldn", fpol="linear", options={"cap_Bp_ylow_xpoint": True}, extract=ex),   # option that rewrites Bpxy at y-faces (acts when Bp > 0)
          gridlab.circular_spec(extract=ex),
          gridlab.circular_spec(options={"number_of_processors": 1, "R0": 2.3, "B0": 3.2, "q_coefficients": [1.5, 2.0],
                                         "r_inner": 0.3, "r_outer": 0.9, "nx": 5, "ny": 12}, extract=ex)]
@@ -48,8 +49,9 @@ def specs(tier):
 def grid_name(g):
     s = g["spec"]
     q = s.get("options", {}).get("q_coefficients")
-    return "%s%s%s%s" % (s.get("geometry", "circular"), "" if s.get("options", {}).get("orthogonal", True) else "-nonorth",
-                         "" if s.get("psi_sign", 1.0) > 0 else "-psineg", "-q%s" % "_".join(str(c) for c in q) if q else "")
+    return "%s%s%s%s%s" % (s.get("geometry", "circular"), "-odd" if s.get("odd") else "", "-capBp" if s.get("options", {}).get("cap_Bp_ylow_xpoint") else "",
+                           ("" if s.get("options", {}).get("orthogonal", True) else "-nonorth") + ("" if s.get("psi_sign", 1.0) > 0 else "-psineg"),
+                           "-q%s" % "_".join(str(c) for c in q) if q else "")
 
 
 def loc_arrays(v, name, loc):
@@ -103,6 +105,8 @@ def oracle_grid(res, g):
         # dx is d(psi), so the displacement per unit dx across the surfaces is 1/|grad psi|: g11 = |grad psi|^2 with the gradient taken
         # by differencing the equilibrium's psi(R, Z) itself (no use of Bp_R / Bp_Z, no truncation in the cell size)
         gp = g["extras"].get("gradpsi", {}).get(loc)
+        if loc == "ylow" and g["spec"].get("options", {}).get("cap_Bp_ylow_xpoint"):
+            gp = None   # the option replaces Bpxy at the y-faces next to an X-point by a capped value on purpose
         if gp is not None:
             # the file holds the lower faces only: drop the last x-face / y-face of the mesh arrays
             sh = A["g11"].shape
@@ -117,6 +121,18 @@ def oracle_grid(res, g):
                     i = np.unravel_index(np.nanargmax(np.where(okg, eg, 0.0)), eg.shape)
                     bad.append(("g11-gradpsi:%s" % loc, "g11 differs from |grad psi|^2 (finite differences of the equilibrium's psi), i.e. g_11 from the "
                                 "displacement per unit dx across the flux surfaces, by %.3g (relative) at %s %s" % (wg, loc, i)))
+        # the closed forms are in R, Bp, Bt, hy: the field-line pitch dphidy that enters g22/g33/g23/g_22/g_23 is hy Bt / (Bp R) of the
+        # values stored at the same location
+        dph, Bt = loc_arrays(v, "dphidy", loc), loc_arrays(v, "Btxy", loc)
+        if dph is not None and Bt is not None:
+            with np.errstate(all="ignore"):
+                want = hy * Bt / (Bp * R)
+                ed = np.abs(dph - want) / np.maximum(np.abs(want), 1e-300)
+            okd = ok & np.isfinite(ed) & (np.abs(want) > 0)
+            if okd.any() and np.nanmax(np.where(okd, ed, 0.0)) > 1e-10:
+                i = np.unravel_index(np.nanargmax(np.where(okd, ed, 0.0)), ed.shape)
+                bad.append(("closed-pitch:%s" % loc, "dphidy differs from hy Bt / (Bp R) of the stored fields by %.3g (relative) at %s %s, so g33, g23, g_22, g_23 are not their "
+                            "closed forms in R, Bp, Bt, hy there" % (float(ed[i]), loc, i)))
         if orth:
             for c in ("g12", "g13", "g_12", "g_13"):
                 if np.nanmax(np.abs(np.where(ok, A[c], 0.0))) != 0.0:
